@@ -361,12 +361,18 @@ pub fn run_property<P: Property>(prop: P, args: RunArgs) -> i32 {
                 // a saved input of the byte-level fuzz target
                 let (_, f) = prop.raw_target().expect("replay file is neither a JSON replay file nor does this property have a byte-level target");
                 let keys = known_keys.clone();
-                let res = spawn_big(move || {
+                let res = match spawn_big(move || {
                     crate::sut::install_panic_hook();
                     judge_raw(&keys, f, &bytes)
                 })
                 .join()
-                .unwrap();
+                {
+                    Ok(r) => r,
+                    Err(_) => {
+                        say!("ERROR: the harness itself panicked while replaying {} (not a verdict on the property)", path);
+                        return 2;
+                    }
+                };
                 return match res {
                     Ok(()) => {
                         say!("replay {}: property {} held", path, id);
